@@ -391,6 +391,63 @@ func gMatchAck(c *Check) {
 	}
 	// the acknowledging side of a snapshot
 	cSnapshotReply(c, rule+".snap")
+	// the acknowledging side of an append: every non-rejecting MsgAppResp names an index the
+	// sender has verified against the leader's log (or its own log, for the leader's self-ack)
+	hae := p.Method("raft", "raft", "handleAppendEntries")
+	handleSnapshot := p.Method("raft", "raft", "handleSnapshot")
+	appendEntry := p.Method("raft", "raft", "appendEntry")
+	maybeAppendL := p.Method("raft", "raftLog", "maybeAppend")
+	committedF := p.Field("raft", "raftLog", "committed")
+	prevF := p.Field("raft", "logSlice", "prev")
+	eidI := p.Field("raft", "entryID", "index")
+	nAck := 0
+	for _, lit := range p.Lits(msgT) {
+		tc, okT := lit.TypeConsts(p)
+		if !okT || len(tc) != 1 || tc[0] != msgAppResp || lit.Fn == handleSnapshot {
+			continue
+		}
+		if rj := lit.FieldSym(p, "Reject"); rj != nil && rj.K == KConst && rj.C != nil && rj.C.String() == "true" {
+			continue
+		}
+		fi := p.Info(lit.Fn)
+		site := p.site(lit.Alloc)
+		idx := lit.FieldSym(p, "Index")
+		if idx == nil {
+			c.OkTrivial(rule+".app", "MsgAppResp without an index", fnName(lit.Fn), site, "acknowledges nothing (index 0)", "")
+			continue
+		}
+		nAck++
+		f := fi.FactsAt(lit.Alloc)
+		tested := &Facts{FI: fi, Atoms: f.Tested}
+		ok := false
+		why := "unclassified acknowledgement"
+		switch {
+		case idx.K == KExtract && idx.Idx == 0 && idx.Args[0].K == KCall && idx.Args[0].Fn == maybeAppendL:
+			okv := &Sym{K: KExtract, Idx: 1, Args: idx.Args, V: nil}
+			ok = tested.HasBool(func(s *Sym) bool {
+				return s.K == KExtract && s.Idx == 1 && len(s.Args) == 1 && s.Args[0].Key() == okv.Args[0].Key()
+			}, true) != nil
+			why = "index returned by maybeAppend, which reported success"
+		case idx.K == KField && idx.Fld == committedF && lit.Fn == hae:
+			// stale append below the commit index: committed entries are known to match
+			for _, a := range tested.Atoms {
+				if a.K == ALe {
+					for k, sy := range a.L.S {
+						if sy.K == KField && sy.Fld == eidI && a.L.T[k] == 1 && strings.Contains(sy.Key(), prevF.Name()) {
+							ok = true
+						}
+					}
+				}
+			}
+			why = "commit index, for an append that starts below it"
+		case idx.K == KCall && idx.Fn != nil && (idx.Fn == lastIndex || idx.Fn == p.Method("raft", "raftLog", "append")) && lit.Fn == appendEntry:
+			to := lit.FieldSym(p, "To")
+			ok = to != nil && to.K == KField && to.Fld == idF
+			why = "the leader's acknowledgement of its own append (To: r.id)"
+		}
+		c.Result(ok, rule+".app", "MsgAppResp index", fnName(lit.Fn), site, "Index <- maybeAppend's last new index (on success) | commit index (append below commit) | own last index (lastIndex() / raftLog.append result) addressed to itself", why+": "+sanitizeKey(idx.Key()))
+	}
+	c.Result(nAck >= 3, rule+".app", "acknowledging MsgAppResp literals", "-", "-", "follower success, follower stale, leader self-ack", fmt.Sprint(nAck))
 }
 
 var _ = types.Typ
